@@ -60,7 +60,8 @@ class Lexer(object):
 
     @TOKEN(r'("(\\.|[^"\\])*")|(\'(\\.|[^\'\\])*\')')
     def t_STRING(self, t):
-        t.value = t.value.strip("\"'").encode().decode("unicode_escape")
+        # Remove the enclosing quotes (only those) and interpret escapes without mangling non-ASCII characters
+        t.value = t.value[1:-1].encode("latin-1", "backslashreplace").decode("unicode_escape")
         return t
 
     @TOKEN(r"[\r\n]+")
